@@ -7,6 +7,7 @@ WT="${1:?worktree}"; DEMO="${2:?demo command}"
 cd "$WT" || exit 2
 export CARGO_TARGET_DIR="$WT/target" CARGO_NET_OFFLINE=true
 git checkout -q -- . || exit 2
+git reset -q; git clean -fdq -e seed -e target -e ".verify*" -e duck_changed -e "*.log"
 git apply --check seed/patch.diff || { echo "VERIFY: patch does not apply"; exit 1; }
 git apply seed/patch.diff
 echo "--- files changed: $(git diff --stat | tail -1)"
@@ -14,6 +15,7 @@ python3 /verif/tools/baseline_check.py "$WT" > "$WT/.verify_base.txt"; base=$?; 
 cargo build -q -p duckscript_cli --offline 2>&1 | tail -3
 bash -c "$DEMO" >"$WT/.verify_demo_with.txt" 2>&1; with=$?
 git checkout -q -- .
+git clean -fdq -e seed -e target -e ".verify*" -e duck_changed -e "*.log"
 cargo build -q -p duckscript_cli --offline 2>&1 | tail -3
 bash -c "$DEMO" >"$WT/.verify_demo_without.txt" 2>&1; without=$?
 echo "VERIFY: baseline_exit=$base demo_with_patch_exit=$with demo_without_patch_exit=$without"
